@@ -95,6 +95,11 @@ def gen(rng, idx, tier, seed):
         'clean': str(rng.choice(['none', 'mask'])),
         'boundsopt': str(rng.choice(['ignore', 'warn', 'error'])),
         'nanlr': bool(rng.random() < 0.5),
+        # nan given for one side only (the other keeps its default)
+        'nanside': str(rng.choice(['both', 'both', 'left', 'right'])),
+        # the queries arrive as a float32 array (values read from an f4
+        # variable of another file)
+        'q32': bool(rng.random() < 0.2),
         'int_coord': bool(rng.random() < 0.15),
         # storage type of the coordinate and its bounds
         'cdtype': str(rng.choice(['d', 'd', 'f', 'store-int'])),
@@ -260,15 +265,23 @@ def judge(spec, c, e, q, out, warned, raised):
     if out.shape != q.shape:
         return problems + ['result shape %s for %s queries' % (out.shape,
                                                                q.shape)]
-    must_mask_out = spec['clean'] == 'mask' and spec['nanlr']
+    side = spec.get('nanside', 'both') if spec['nanlr'] else None
+    mask_both = spec['clean'] == 'mask' and side == 'both'
+    must_mask_out = mask_both
     # left/right=nan without clean='mask' asks for nan cast to an integer:
     # whatever comes out beyond the interpolation range was requested
     nan_garbage = spec['nanlr'] and spec['clean'] == 'none'
     span = float(max(e.max(), c.max()) - min(e.min(), c.min()))
     alledges = np.concatenate([lo, hi])
 
+    # edges the library derives from float32-stored centres are defined only
+    # up to float32 rounding
+    eps_ = np.finfo('f4').eps if (spec.get('cdtype') == 'f' and
+                                  spec['bounds'] == 'none') else \
+        np.finfo('f8').eps
+
     def near_edge(v):
-        tol = 16 * np.finfo('f8').eps * max(abs(v), span, 1.0)
+        tol = 16 * eps_ * max(abs(v), span, 1.0)
         return bool((np.abs(alledges - v) <= tol).any())
     for j, v in enumerate(q):
         if method == 'exact':
@@ -282,6 +295,16 @@ def judge(spec, c, e, q, out, warned, raised):
                                 'index %s unmasked' % (v, out[j]))
             continue
         if strict_out[j]:
+            if spec['clean'] == 'mask' and side in ('left', 'right'):
+                # nan asked for one side only: values beyond THAT side of
+                # the domain come back masked
+                below = v < rng_lo
+                if ((side == 'left' and below) or
+                        (side == 'right' and not below)) and not om[j]:
+                    problems.append('%s: out-of-range %r not masked with '
+                                    'clean=mask,%s=nan (got %s)'
+                                    % (method, v, side, out[j]))
+                continue
             if must_mask_out and not om[j]:
                 problems.append('%s: out-of-range %r not masked with '
                                 'clean=mask,left/right=nan (got %s)'
@@ -299,6 +322,10 @@ def judge(spec, c, e, q, out, warned, raised):
                 # the outer centres when left/right=nan: only acceptable
                 # outside [c.min, c.max]
                 if must_mask_out and (v < c.min() or v > c.max()):
+                    continue
+                if spec['clean'] == 'mask' and (
+                        (side == 'left' and v < c.min()) or
+                        (side == 'right' and v > c.max())):
                     continue
                 problems.append('nearest: in-range %r masked' % (v,))
             elif od[j] not in best:
@@ -372,13 +399,21 @@ def run_val_in(spec, res, d, h):
     kw = dict(method=spec['method'], clean=spec['clean'],
               bounds=spec['boundsopt'])
     if spec['nanlr']:
-        kw['left'] = np.nan
-        kw['right'] = np.nan
+        if spec.get('nanside', 'both') in ('both', 'left'):
+            kw['left'] = np.nan
+        if spec.get('nanside', 'both') in ('both', 'right'):
+            kw['right'] = np.nan
+    qin = q.copy()
+    if spec.get('q32'):
+        # the oracle judges the values the float32 array actually holds
+        qin = q.astype('f4')
+        q = qin.astype('f8')
+        res.facet('queries:float32')
     harness.WARN_LOG.clear()
     _state['cur'] = st = {}
     raised = None
     try:
-        out = f.val2idx('x', q.copy(), **kw)
+        out = f.val2idx('x', qin.copy(), **kw)
     except Exception as ex:
         raised = ex
         out = None
